@@ -47,6 +47,8 @@ class Contract:
     assumed: bool = False  # trusted: used at call sites, body not verified (listed in evidence)
     note: str = ""
     setup: Callable[["Ctx"], None] | None = None  # run once per verification to add ghost state
+    # case split of every postcondition obligation: fn(ctx) -> list of (cell name, z3 condition)
+    split: Callable[["Ctx"], list] | None = None
     symbol: Any = None  # pure contracts: the spec function the call denotes (z3 FuncDecl over the SV arguments)
 
     # -- fluent API used by the sidecar files
